@@ -85,3 +85,39 @@ def pose(w, name, plim=1000):
     p = w.reals(name + 'p', 3, -plim, plim)
     R = quat_R(w, q)
     return T_of(w, R, p), R, p, q
+
+
+# ---------------------------------------------------------------------------------------------
+# boolean helpers that work on Python bools and on symbolic booleans alike (no path forking)
+# ---------------------------------------------------------------------------------------------
+
+def AND(*xs):
+    r = True
+    for x in xs:
+        if isinstance(x, bool) or hasattr(x, 'dtype'):
+            if not x:
+                return False
+        else:
+            r = x if r is True else (r & x)
+    return r
+
+
+def OR(*xs):
+    r = False
+    for x in xs:
+        if isinstance(x, bool) or hasattr(x, 'dtype'):
+            if x:
+                return True
+        else:
+            r = x if r is False else (r | x)
+    return r
+
+
+def NOT(x):
+    if isinstance(x, bool) or hasattr(x, 'dtype'):
+        return not x
+    return ~x
+
+
+def IMPLIES(a, b):
+    return OR(NOT(a), b)
